@@ -143,11 +143,13 @@ def tempPathOf (output : String) : String :=
     | xs => if xs.head! = "" ∧ xs.length = 2 then name else ".".intercalate xs.dropLast
   "/".intercalate (dir ++ [stem ++ "." ++ Gen.tempExtension])
 
-/-- Options of one `bita compress` run with a file input. -/
+/-- Options of one `bita compress` run with a file input.  `temp` is `Options::temp_file`, which
+cli.rs computes as `tempPathOf output`. -/
 structure CompressCmd where
   flags : CliFlags
   input : String
   output : String
+  temp : String
   opts : CompressOpts
   deriving Repr
 
@@ -163,7 +165,7 @@ def Cli.compress (H : Bytes → Bytes) (comp : Bytes → Bytes) (c : CompressCmd
       match fs1.get c.input with
       | none => ⟨false, fs1, ops1⟩
       | some inode =>
-        let tmp := tempPathOf c.output
+        let tmp := c.temp
         let ops2 := ops1 ++ [FsOp.openRead c.input, FsOp.openWrite tmp tfl.describe]
         match fs1.openOut tmp tfl with
         | none => ⟨false, fs1, ops2⟩
